@@ -16,10 +16,33 @@ def short_str16(s):
     return bytes([len(u) // 2, 1]) + u
 
 
-def workbook_stream(sheets, names, xtis, formulas_by_sheet, lbls=None, split_extern=False):
+def xl_ustr(s):
+    """XLUnicodeString: cch u16, flags, characters (16-bit)"""
+    u = s.encode("utf-16le")
+    return struct.pack("<HB", len(u) // 2, 1) + u
+
+
+def supbook_record(sb, nsheets):
+    """SupBook (MS-XLS 2.4.271).  sb: ("self",) this workbook (cch = 0x0401, ctab = its sheet count);
+    ("addin",) the add-in functions (ctab = 1, cch = 0x3A01); ("ext", path, [sheet names]) another
+    workbook: ctab, cch, virtPath (XLUnicodeStringNoCch), ctab x XLUnicodeString"""
+    if sb[0] == "self":
+        return rec(0x01AE, struct.pack("<HH", nsheets, 0x0401))
+    if sb[0] == "addin":
+        return rec(0x01AE, struct.pack("<HH", 1, 0x3A01))
+    path, shs = sb[1], sb[2]
+    u = path.encode("utf-16le")
+    return rec(0x01AE, struct.pack("<HH", len(shs), len(u) // 2) + b"\x01" + u + b"".join(xl_ustr(x) for x in shs))
+
+
+def workbook_stream(sheets, names, xtis, formulas_by_sheet, lbls=None, split_extern=False, extern_cuts=None,
+                    supbooks=None):
     """sheets: names; names: Latin-1 defined names (plain Lbl records) — or lbls: ready Lbl payloads
     (tools/fmlagen.lbl_payload: any flags, 8/16-bit names, a formula) in record order;
     xtis: (sup, first, last) raw u16; split_extern: two EXTERNSHEET records (calamine appends);
+    extern_cuts: sizes of the pieces of the XTI array in the ExternSheet record and in all but the last of its
+    CONTINUE records (MS-XLS 2.4.105: more than 1370 XTI do not fit into one record; any split is read the same);
+    supbooks: the supporting links in record order (default: this workbook only), see supbook_record;
     formulas_by_sheet[i] = sorted list of (row, col, cell_parsed_formula_bytes[, records that follow
     the FORMULA record, e.g. SHRFMLA / ARRAY / a value cell]); an item (row, col, None, records)
     writes only the raw records (value cells outside the formula area)"""
@@ -28,10 +51,21 @@ def workbook_stream(sheets, names, xtis, formulas_by_sheet, lbls=None, split_ext
     import zlib
     cpv = [1200, 1200, 1252, 1252, 932, 936, 1251, 65001, 10000, 437, 54321, None][zlib.crc32(repr((sheets, names, xtis)).encode("utf-8", "replace")) % 12]
     cp = b"" if cpv is None else rec(0x0042, struct.pack("<H", cpv))
-    supbook = rec(0x01AE, struct.pack("<HH", len(sheets), 0x0401))
-    def ext(xs):
-        return rec(0x0017, struct.pack("<H", len(xs)) + b"".join(struct.pack("<HHH", *x) for x in xs))
-    if xtis and split_extern and len(xtis) > 1:
+    supbook = b"".join(supbook_record(sb, len(sheets)) for sb in (supbooks or [("self",)]))
+    def ext(xs, cuts=None):
+        arr = b"".join(struct.pack("<HHH", *x) for x in xs)
+        parts, rest = [], arr
+        for c in (cuts or []):
+            parts.append(rest[:c])
+            rest = rest[c:]
+        parts.append(rest)
+        out = rec(0x0017, struct.pack("<H", len(xs)) + parts[0])
+        for p_ in parts[1:]:
+            out += rec(0x003C, p_)
+        return out
+    if xtis and extern_cuts is not None:
+        extern = ext(xtis, extern_cuts)
+    elif xtis and split_extern and len(xtis) > 1:
         extern = ext(xtis[:len(xtis) // 2]) + ext(xtis[len(xtis) // 2:])
     else:
         extern = ext(xtis) if xtis else b""
